@@ -86,3 +86,85 @@ func (d BMShard) Each(f func(w []uint64)) {
 		f(w)
 	})
 }
+
+// SparseSpace is the long sparse bitmap family: bitmaps of exactly Len words
+// that are zero everywhere except 0..MaxIslands non-zero words ("islands")
+// drawn from Islands, at every combination of positions. It puts long runs of
+// empty words (of every length up to Len-1) between 1-bits and varies the
+// number of ones before an island modulo the 32-one select sampling.
+type SparseSpace struct {
+	Len        int
+	MaxIslands int
+}
+
+// Islands is the island alphabet: popcounts 1, 1, 2, 31, 32, 33, 63, 64, 2, 44.
+var Islands = []uint64{
+	1, 1 << 63, 0b110, 0x7fffffff, 0xffffffff, 0x1ffffffff, ^uint64(0) >> 1, ^uint64(0), 0x8000000000000001, 0xdeadbeefcafebabe,
+}
+
+func binomial(n, k int) int64 {
+	if k < 0 || k > n {
+		return 0
+	}
+	r := int64(1)
+	for i := 1; i <= k; i++ {
+		r = r * int64(n-k+i) / int64(i)
+	}
+	return r
+}
+
+func (s SparseSpace) Card() int64 {
+	var n int64
+	for k := 0; k <= s.MaxIslands; k++ {
+		n += binomial(s.Len, k) * PowInt(len(Islands), k)
+	}
+	return n
+}
+
+// OnesSum is Σ over all bitmaps of the space of their popcount (closed form).
+func (s SparseSpace) OnesSum(pop func(uint64) int64) int64 {
+	var sp int64
+	for _, w := range Islands {
+		sp += pop(w)
+	}
+	var n int64
+	for k := 1; k <= s.MaxIslands; k++ {
+		// each of the k islands contributes the average popcount: k · C(L,k) · |A|^(k-1) · Σpop
+		n += int64(k) * binomial(s.Len, k) * PowInt(len(Islands), k-1) * sp
+	}
+	return n
+}
+
+// Shards: one per first-island position (plus one for the all-zero bitmap).
+func (s SparseSpace) Shards() int { return s.Len + 1 }
+
+// Each enumerates shard sh: sh == Len is the all-zero bitmap, otherwise all
+// bitmaps whose first island sits at word sh.
+func (s SparseSpace) Each(sh int, f func(w []uint64)) {
+	w := make([]uint64, s.Len)
+	if sh == s.Len {
+		f(w)
+		return
+	}
+	var rec func(start, left int)
+	rec = func(start, left int) {
+		f(w)
+		if left == 0 {
+			return
+		}
+		for p := start; p < s.Len; p++ {
+			for _, isl := range Islands {
+				w[p] = isl
+				rec(p+1, left-1)
+			}
+			w[p] = 0
+		}
+	}
+	if s.MaxIslands == 0 {
+		return
+	}
+	for _, isl := range Islands {
+		w[sh] = isl
+		rec(sh+1, s.MaxIslands-1)
+	}
+}
